@@ -33,7 +33,7 @@ MAXSZ = 4
 
 
 def gen_list(d, name):
-    w = d.choice([2, 2, 3])
+    w = d.choice([1, 2, 2, 3])      # 1-bit elements: a unique over more than two of them is unsatisfiable
     sg = d.chance(15)
     mode = d.weighted([(4, "fixed"), (4, "randsz"), (2, "nonrand")])
     l = {"name": name, "elem": {"kind": "int" if sg else "bit", "w": w, "signed": sg}, "mode": mode}
@@ -141,6 +141,9 @@ def gen_stmts(d, lists, scal, p_fold=12):
                 then_ = [["expr", ["in", ["sz", l["name"]], [["rng", L(lo2), L(d.randint(lo2, 3))]]]]]
                 else_ = [["expr", ["bin", d.choice([">=", ">", "!="]), ["sz", l["name"]], L(d.randint(0, 3))]]] if d.chance(70) else None
                 out.append(["if", [[cond, then_]], else_] if d.chance(75) else ["implies", cond, then_])
+            if l["elem"]["w"] == 1 and d.chance(50):
+                # at most two 1-bit elements can differ: the elements the list is grown by for solving must not count
+                out.append(["uniql", l["name"]])
     for _ in range(d.randint(1, 4)):
         l = d.choice(lists)
         n = l["name"]
@@ -214,7 +217,8 @@ def gen_stmts(d, lists, scal, p_fold=12):
         elif r < 88 and len(lists) > 1 and all(x["mode"] != "randsz" for x in lists) and lists[0].get("size") == lists[1].get("size") \
                 and lists[0]["elem"] == lists[1]["elem"]:
             out.append(["uvec", names])
-        elif r < 94 and l["mode"] != "randsz" and l.get("size", 0) >= 1:
+        elif r < 94 and (l["mode"] == "randsz" or l.get("size", 0) >= 1):
+            # (membership in a random-size list: only the elements within the solved size are members)
             out.append(["expr", ["inl", ["f", scal[0]], n]])
         elif l["mode"] != "randsz" and l.get("size", 0) >= 1:
             j = d.randint(0, l["size"] - 1)
@@ -1198,6 +1202,7 @@ def body(case, acc):
     cls = case["prog"]["classes"][0]
     for l in cls["lists"]:
         acc.label("list:" + l["mode"])
+        acc.label("elements:%d-bit" % l["elem"]["w"])
     for s in cls["blocks"][0]["stmts"]:
         acc.label("stmt:" + s[0] + (":" + ("idx+it" if s[2] and s[3] else "idx" if s[2] else "it") if s[0] == "foreach" else ""))
     for op in case["ops"]:
